@@ -882,3 +882,45 @@ Proof.
   rewrite (sim_run_og cs evs (init cs ord) (obs0 cs) g0 0 s Hwf (R_init cs ord) Hacc); [reflexivity|].
   unfold sched_ok_C01, og_final in Hs. now apply negb_true_iff in Hs.
 Qed.
+
+(* ---- declarative reading of the monitor ---------------------------------------------------------------------------- *)
+Lemma mon_run_none_forall cs m : forall evs o k, mon_run cs m o evs k = None ->
+  forall pre e post, evs = pre ++ e :: post -> m (fold_left (obs_step cs) pre o) e = true.
+Proof.
+  induction evs as [|a r IH]; intros o k H pre e post E.
+  - destruct pre; discriminate.
+  - cbn in H. destruct (m o a) eqn:Em; [|discriminate]. destruct pre as [|b pre]; cbn in E.
+    + injection E as -> ->. exact Em.
+    + injection E as -> ->. cbn. eapply IH; eauto.
+Qed.
+
+(* what the monitor demands for one dependency (k, c) of the launching instance x *)
+Definition dep_ok (o : obs) (x : oinst) (k : name) (c : cond) : Prop :=
+  match wait_of x k with
+  | Some (_, Some j, _) => o_nm (oi_get o j) = k /\ met o c (oi_get o j) = true
+  | Some (_, None, b) => reg_before o k b = [] \/ exists y, In y (reg_before o k b) /\ met o c y = true
+  | None => reg_before o k (o_cnt o) = [] \/ exists y, In y (reg_before o k (o_cnt o)) /\ met o c y = true
+  end.
+
+Lemma some_met_prop o c J : some_met o c J = true -> J = [] \/ exists y, In y J /\ met o c y = true.
+Proof. unfold some_met. destruct J as [|y l]; [now left|right]. now apply existsb_exists. Qed.
+
+Lemma C01_declarative_lemma : forall cs ord evs s,
+  wf_confs cs = true -> accept (init cs ord) evs = Some s -> sched_ok_C01 cs evs = true ->
+  forall pre th post, evs = pre ++ (th, ELaunch true) :: post ->
+  let o := fold_left (obs_step cs) pre (obs0 cs) in
+  forall i, get th (o_th o) = Some i ->
+  let x := oi_get o i in
+  forall k c, In (k, c) (deps (conf_of cs (o_nm x))) -> dep_ok o x k c.
+Proof.
+  intros cs ord evs s Hwf Hacc Hs pre th post E o i Hi x k c Hin.
+  pose proof (C01_main_partial_lemma cs ord evs s Hwf Hacc Hs) as H. unfold holds_C01, holds in H.
+  destruct (mon_run cs (mon_C01 cs) (obs0 cs) evs 0) eqn:Em; [discriminate|].
+  pose proof (mon_run_none_forall cs (mon_C01 cs) evs (obs0 cs) 0 Em pre (th, ELaunch true) post E) as Q.
+  fold o in Q. unfold mon_C01 in Q. cbn [fst snd ev_inst] in Q. rewrite Hi in Q. fold x in Q.
+  rewrite forallb_forall in Q. specialize (Q (k, c) Hin). cbn [fst snd] in Q. unfold dep_ok.
+  destruct (wait_of x k) as [[[k0 [j|]] b]|].
+  - apply andb_true_iff in Q. destruct Q as [Q1 Q2]. apply N.eqb_eq in Q1. auto.
+  - now apply some_met_prop.
+  - now apply some_met_prop.
+Qed.
